@@ -938,6 +938,8 @@ def tasks(tier, seed):
         for pset in psets:
             for ri in (0, 1):
                 for budget in budgets:
+                    if tier == 'quick' and (pset, ri, budget) in (('D', 1, 1.0), ('B', 0, 10.0)):
+                        continue  # quick: 6 of the 8 (parameter set, row, budget) combinations
                     for e0 in firsts:
                         t.append(dict(part='f', cfg=cfg, pset=pset, row=ri, labs=quick_labs, budgets=[budget],
                                       draws=[[e0] + tl for tl in tails], seed=seed, bf_labs=[0]))
